@@ -1,6 +1,7 @@
 package streamsim
 
 import (
+	"encoding/binary"
 	"fmt"
 	"math"
 	"strconv"
@@ -29,6 +30,12 @@ type G struct {
 	// generated name gets a fresh suffix counted from here.
 	Uniq    *int
 	UniqPct int
+	// NumRamp extends a cardinality ramp to the dictionary-encoded columns that
+	// do not hold strings: int32 enumerations (span kind, status code, severity
+	// number, aggregation temporality - pdata accepts any int32), int64 and
+	// bytes attribute values and bodies, trace and span ids, durations. The
+	// choices are drawn on the Ext stream after the ordinary Gen draw.
+	NumRamp bool
 	pending int // items promised by nItems and not yet counted in Items
 	// Plain biases toward attribute-free items (cheap, large batches).
 	Plain bool
@@ -63,6 +70,33 @@ func (g *G) uniq() (string, bool) {
 		return fmt.Sprintf("u%07d", *g.Uniq), true
 	}
 	return "", false
+}
+
+// un returns a fresh number of the ramp for a non-string dictionary column.
+func (g *G) un() (uint64, bool) {
+	if g.NumRamp && g.Uniq != nil && g.t.Chance(core.Ext, g.UniqPct, 100) {
+		*g.Uniq++
+		return uint64(*g.Uniq), true
+	}
+	return 0, false
+}
+
+// enum is an enumeration field: one of the n defined values, or - on a numeric
+// ramp - any int32.
+func (g *G) enum(n int) int32 {
+	v := int32(g.d(n))
+	if u, ok := g.un(); ok {
+		return int32(u)
+	}
+	return v
+}
+
+func (g *G) intVal() int64 {
+	v := pick(g, intPool)
+	if u, ok := g.un(); ok {
+		return int64(u) * 7
+	}
+	return v
 }
 
 var strPool = []string{"", "a", "b", "1", "true", "a,b", "x:y|{z}", "k=v;", "ü-ñ-漢", "svc", "0", " ", "\"q\"", "[1]", "{}"}
@@ -100,7 +134,11 @@ func (g *G) ts() pcommon.Timestamp {
 }
 
 func (g *G) bytesVal() []byte {
-	return [][]byte{{}, {0}, {1, 2}, {255, 0, 255}, []byte("bin")}[g.d(5)]
+	b := [][]byte{{}, {0}, {1, 2}, {255, 0, 255}, []byte("bin")}[g.d(5)]
+	if u, ok := g.un(); ok {
+		return binary.BigEndian.AppendUint64([]byte("u"), u)
+	}
+	return b
 }
 
 // value fills v with a random AnyValue; depth is the remaining nesting budget.
@@ -115,7 +153,7 @@ func (g *G) value(v pcommon.Value, depth int) {
 	case 0:
 		v.SetStr(g.str())
 	case 1:
-		v.SetInt(pick(g, intPool))
+		v.SetInt(g.intVal())
 	case 2:
 		v.SetDouble(pick(g, dblPool))
 	case 3:
@@ -184,7 +222,7 @@ func (g *G) attrs(m pcommon.Map) {
 			case 1:
 				m.PutStr(k, g.str())
 			case 2:
-				m.PutInt(k, pick(g, intPool))
+				m.PutInt(k, g.intVal())
 			case 3:
 				m.PutDouble(k, pick(g, dblPool))
 			default:
@@ -211,6 +249,15 @@ func (g *G) attrs(m pcommon.Map) {
 }
 
 func (g *G) traceID() pcommon.TraceID {
+	id := g.traceID0()
+	if u, ok := g.un(); ok {
+		binary.BigEndian.PutUint64(id[8:], u)
+		id[0] = 0xee
+	}
+	return id
+}
+
+func (g *G) traceID0() pcommon.TraceID {
 	switch g.w(2, 3, 3, 1) {
 	case 0:
 		return pcommon.TraceID{}
@@ -223,6 +270,14 @@ func (g *G) traceID() pcommon.TraceID {
 }
 
 func (g *G) spanID() pcommon.SpanID {
+	id := g.spanID0()
+	if u, ok := g.un(); ok {
+		binary.BigEndian.PutUint64(id[:], u|1<<63)
+	}
+	return id
+}
+
+func (g *G) spanID0() pcommon.SpanID {
 	switch g.w(2, 3, 3) {
 	case 0:
 		return pcommon.SpanID{}
@@ -368,7 +423,7 @@ func (g *G) span(sp ptrace.Span) {
 		return
 	}
 	sp.TraceState().FromRaw([]string{"", "", "k=v", "a=1,b=2"}[g.d(4)])
-	sp.SetKind(ptrace.SpanKind(g.d(6)))
+	sp.SetKind(ptrace.SpanKind(g.enum(6)))
 	st := g.ts()
 	sp.SetStartTimestamp(st)
 	switch g.w(3, 3, 1, 1) {
@@ -379,6 +434,9 @@ func (g *G) span(sp ptrace.Span) {
 			sp.SetEndTimestamp(st)
 		} else {
 			sp.SetEndTimestamp(st + pcommon.Timestamp(g.d(1000)))
+			if u, ok := g.un(); ok && uint64(st) < 1<<62 {
+				sp.SetEndTimestamp(st + pcommon.Timestamp(u*1000003)) // the duration column is dictionary encoded too
+			}
 		}
 	case 2:
 		sp.SetEndTimestamp(g.ts())
@@ -388,7 +446,7 @@ func (g *G) span(sp ptrace.Span) {
 	sp.SetDroppedAttributesCount(pick(g, u32Pool))
 	sp.SetDroppedEventsCount(pick(g, u32Pool))
 	sp.SetDroppedLinksCount(pick(g, u32Pool))
-	sp.Status().SetCode(ptrace.StatusCode(g.d(3)))
+	sp.Status().SetCode(ptrace.StatusCode(g.enum(3)))
 	sp.Status().SetMessage(pick(g, strPool))
 	g.attrs(sp.Attributes())
 	ne := g.w(4, 3, 2, 1)
@@ -447,7 +505,7 @@ func (g *G) logRecord(lr plog.LogRecord) {
 	}
 	lr.SetTraceID(g.traceID())
 	lr.SetSpanID(g.spanID())
-	lr.SetSeverityNumber(plog.SeverityNumber(g.d(25)))
+	lr.SetSeverityNumber(plog.SeverityNumber(g.enum(25)))
 	lr.SetSeverityText(pick(g, strPool))
 	if g.p(1, 30) {
 		if g.InDomain {
@@ -487,7 +545,7 @@ func (g *G) Metrics() pmetric.Metrics {
 }
 
 func (g *G) temporality() pmetric.AggregationTemporality {
-	return pmetric.AggregationTemporality(g.d(3))
+	return pmetric.AggregationTemporality(g.enum(3))
 }
 
 func (g *G) nPoints() int { return g.w(2, 4, 3, 2, 1) }
